@@ -1,7 +1,11 @@
 """C17 — Parsed diagrams are geometrically sound and independent of absolute position.
 
 Diagram level (oracle on the implementation, raw lxml + plain arithmetic): every corpus diagram parsed and checked for
-soundness; the stored layout translated as a whole; ONE top-level node moved by a random vector; and ONE top-level node
+soundness; the stored layout translated as a whole — by random vectors and by vectors DERIVED from the diagram's own
+geometry that put the coordinate origin on / within 1 of / a few pixels beside every kind of feature (parsed and stored
+edge ends, bend points, box corners and centres, ports, labels), a feature on one axis only, the diagram 1e6 away, into
+the negative quadrant or centred on the origin (origin_offsets: whatever depends on ABSOLUTE coordinates shows there) —;
+ONE top-level node moved by a random vector; and ONE top-level node
 moved into special relative positions DERIVED from the geometry the diagram has at rest (perturbation_offsets: the two
 ends of an attached edge coincide, an end lands on a bend point / on a corner of the other box, corners / sides /
 centres of the connected boxes coincide, stored segment vectors, corners of top-level boxes on each other) — the
@@ -1510,7 +1514,12 @@ def run(chk: lib.Check):
         "translation of exact cases by random integer vectors in [-5000,5000]^2; primitives: line_intersect / closestaxis / snap_to_parent "
         "(port, non-port) / calculate_viewport model vs implementation; edge ends: snaptarget and route_* on synthetic boxes and polylines; "
         "diagrams: every diagram of " + ("the 5_2 test model" if quick else "every model under tests/data") + " parsed, checked for soundness, "
-        "re-parsed after translating the stored .aird layout (one random or extreme vector per diagram and round), after moving one "
+        "re-parsed after translating the stored .aird layout (one random or extreme vector per diagram and round), after translating it by "
+        "vectors derived from the diagram's own geometry (offset = -feature + d: the origin on, within 1 of and 2..7 pixels beside parsed and "
+        "stored edge ends, bend points, box corners, box centres, port positions, label positions; a feature on x = 0 or y = 0 only; +-1e6; "
+        "whole diagram in the negative quadrant / negative in one coordinate / centred on the origin; every diagram gets the global vectors and "
+        ">= 16 origin-at-an-edge-end vectors, the rest is a seeded round-robin sample over (feature kind, mode), "
+        + ("4500" if quick else "15000") + " parses per model; tolerance 1e-6, growing linearly with offsets beyond 5000), after moving one "
         "top-level node per diagram and round by a random vector, and after moving single top-level nodes by offsets derived from the stored "
         "geometry (every 'edge ends coincide' offset of every edge that leaves a top-level node, a seeded sample of the other classes: end on "
         "bend point / box corner, box corners, sides and centres coinciding, segment vectors, corners of top-level boxes; "
@@ -1523,6 +1532,8 @@ def run(chk: lib.Check):
         "(PIL text extents) is outside the model",
         "whole-diagram claims (soundness of every corpus diagram, translation of the stored layout, moving one node) are decided per instance by "
         "the oracle on the implementation, not proved; _edge_factories.snap_oblique/snap_manhattan/snap_tree and route_* are covered by the oracle only",
+        "translations by more than 5000 are compared with the tolerance 1e-6 * |offset| / 5000 (2e-4 at 1e6): the determinant formula of "
+        "line_intersect on absolute coordinates loses about 2.5e-5 px there (measured maximum in coverage.diagrams.max_deviation_large_offsets)",
         "the oracle reads the .aird with lxml, classifies crashes by the innermost traceback frame and exact Fraction arithmetic, and shares no code with capellambse",
     ]
 
